@@ -158,9 +158,7 @@ def for_fetch(rng, obj, prefix_mode, disc_k, fates):
     base = obj['base']
     s['prefix'] = base if prefix_mode == 0 or len(base) < 2 else base[:-1]
     if obj['disc'][0] == 'whole':
-        if obj['disc'][1] == base and s['prefix'] != base:
-            pass        # the object is named exactly like the fetched name of the other prefix form: still below this prefix
-        s['disc'] = obj['disc']
+        s['disc'] = obj['disc']       # an unsegmented object named like / below the object's base name: below either prefix form
     else:
         s['disc'] = ('seg', disc_k)
     s['fates'] = fates
@@ -232,7 +230,11 @@ def stream_d(ctx):
         nf = rng.choice([2, 2, 3])
         objs = [gen_object(rng, rng.choice([1, 2, 3, 4, 6]), rng.choice(H.STYLES), whole=rng.random() < 0.1)]
         if rng.random() < 0.25:
-            objs.append(gen_object(rng, rng.choice([1, 2, 3]), rng.choice(H.STYLES)))
+            o2 = gen_object(rng, rng.choice([1, 2, 3]), rng.choice(H.STYLES))
+            if o2['base'] == objs[0]['base']:
+                # two DIFFERENT objects have different names (same name, other content would be two versions of one Data)
+                o2 = H.mk_scenario(rng, o2['nseg'], 0, 'exact', {}, base=o2['base'] + [bytes([8, 2, 0x6f, 0x32])])
+            objs.append(o2)
         avail = {}
         for o in objs:
             for i in range(o['nseg']):
